@@ -68,4 +68,4 @@ for (sid, prop, chk, res, n, at) in table:
         res = NOTES.get((sid, chk), "not detected by this check (another check in this table detects it)")
     print(f"| {sid} | {prop} | {chk} quick | {res} | {n} | {at} |")
 print(f"\n(change, check) combinations detected: {det} of {len(table)};  changes detected by at least one check: {by_any} of {len(changes)}")
-print("\nbenign-1 and benign-2 (behaviour-preserving refactorings): all 18 quick checks exit 0 with no VIOLATION line (bin/benign_all.sh, re-run after round 6; C01, C08, C11, C13 again after round 8; seeded/runs/benign.md; DESIGN.md 13).")
+print("\nbenign-1 and benign-2 (behaviour-preserving refactorings): all 18 quick checks exit 0 with no VIOLATION line (bin/benign_all.sh, re-run after round 6; C02-C07, C10 again after round 7 and C01, C08, C11, C13 after round 8; seeded/runs/benign.md; DESIGN.md 13).")
